@@ -40,7 +40,7 @@ func init() {
 			"plus missing/malformed bounds; distinct = shape hash (layout, placement, n, target, bound kind, offset class, forms, outcome); non-trivial = the SP took a decision",
 		Directed:   c05Directed,
 		Run:        c05Run,
-		MustHit:    []string{"delay_to_bound", "offset=0", "offset=+1ns", "offset=-1ns", "kind=sc-nooa", "kind=cond-nb", "kind=cond-nooa", "bad_bound", "conditions_element_absent", "bounds_centuries_away", "bound_at_the_first_instant_or_centuries_off", "session_not_on_or_after_set", "skewed_clock", "non_utc_location", "redelivery_after_expiry"},
+		MustHit:    []string{"delay_to_bound", "offset=0", "offset=+1ns", "offset=-1ns", "kind=sc-nooa", "kind=cond-nb", "kind=cond-nooa", "bad_bound", "conditions_element_absent", "bounds_centuries_away", "bound_at_the_first_instant_or_centuries_off", "session_not_on_or_after_set", "skewed_clock", "non_utc_location", "redelivery_after_expiry", "foreign_namespace_namesake_with_open_bounds"},
 		RandomRuns: map[string]int{"quick": 8000, "thorough": 60000},
 		Assumptions: []string{
 			"RFC 3339 grey areas (leap seconds, lower-case t/z, hour 24) are not generated",
@@ -236,6 +236,23 @@ func c05Run(r *core.Run) {
 		r.Fault("nonconforming_idp_bound")
 		r.Probe("bad_bound")
 	}
+	// non-conforming IdP: foreign-namespace namesakes of the elements that carry the bounds, with bounds that
+	// are wide open, written right after the genuine ones. They are not the SAML elements: the message may be
+	// refused as malformed, but if it is accepted the genuine bounds decide.
+	twin := 0
+	if tw := t.Int(16, "c05.twin"); bad == 0 && tw >= 1 && tw <= 3 {
+		twin = tw
+		open := [][2]string{{"NotBefore", "1900-01-01T00:00:00Z"}, {"NotOnOrAfter", "2999-01-01T00:00:00Z"}}
+		for i, a := range m.Assertions {
+			if (twin == 1 || twin == 3) && (i == target || twin == 3) {
+				a.Twins = append(a.Twins, world.LTwin{Of: "SubjectConfirmationData", Attrs: [][2]string{{"NotOnOrAfter", "2999-01-01T00:00:00Z"}, {"Recipient", s.Fed.ACS}}})
+			}
+			if twin >= 2 && (i == 0 || twin == 3) {
+				a.Twins = append(a.Twins, world.LTwin{Of: "Conditions", Attrs: open})
+			}
+		}
+		r.Fault("foreign_namespace_namesake_with_open_bounds")
+	}
 	s.ApplyPlacement(m, place, t.Chance(700, "c05.plainsig"))
 	lay := world.DrawLayout(t)
 	xml, err := s.IdP.Issue(m, lay, r.Sim.Now())
@@ -300,6 +317,9 @@ func c05Run(r *core.Run) {
 				obs("bound", c05KindNames[kind], "value", badDesc, "target", target, "now", now.Format(time.RFC3339Nano)))
 		}
 		return
+	}
+	if twin != 0 && !out.OK() {
+		return // refused, for whatever reason: fine
 	}
 	expired := false
 	expIdx := -1
